@@ -69,6 +69,52 @@ def C05_verdict_context_end_kills_group :
   | exact .holds (by decide)
   | exact .fails (by decide)
 
+/-! ### why Stop() cannot interrupt Execute(): the lock structure -/
+
+/-- the three things that matter: who holds the object's mutex, whether the tree still runs, whether the
+    stopping call has returned -/
+structure LockSt where
+  executeHoldsMutex : Bool
+  treeAlive : Bool
+  stopReturned : Bool
+  deriving Repr, DecidableEq
+
+inductive LockEv
+  | runReturns        -- cmd.Run() returns: possible only once the tree is gone; Execute then releases the mutex
+  | stopProceeds      -- stop() obtains the mutex: kills the tree, returns
+  deriving Repr, DecidableEq
+
+def lockStep (holdAcrossRun : Bool) (s : LockSt) : LockEv → Option LockSt
+  | .runReturns => if s.executeHoldsMutex && !s.treeAlive then some { s with executeHoldsMutex := false } else none
+  | .stopProceeds =>
+    if holdAcrossRun && s.executeHoldsMutex then none     -- blocked on the mutex
+    else some { s with treeAlive := false, stopReturned := true }
+
+def lockRun (h : Bool) : LockSt → List LockEv → LockSt
+  | s, [] => s
+  | s, e :: es => match lockStep h s e with
+    | some s' => lockRun h s' es
+    | none => lockRun h s es     -- a disabled step changes nothing
+
+def duringExecute : LockSt := { executeHoldsMutex := true, treeAlive := true, stopReturned := false }
+
+/-- with the mutex held across the run, no schedule lets Stop() return or the tree die: the state is stuck -/
+theorem C05_stop_during_execute_is_stuck (es : List LockEv) : lockRun true duringExecute es = duringExecute := by
+  induction es with
+  | nil => rfl
+  | cons e es ih => cases e <;> simpa [lockRun, lockStep, duringExecute] using ih
+
+/-- without it Stop() proceeds at once -/
+example : (lockRun false duringExecute [.stopProceeds]).stopReturned = true := by decide
+
+/-- which of the two the source does (regenerated): `fails` = Execute holds the mutex across cmd.Run() and
+    stop() needs it — the recorded finding "Stop() during Execute() blocks" -/
+def C05_verdict_stop_can_interrupt_execute :
+    Verdict (¬ (Generated.Subproc.executeHoldsMutexAcrossRun = true ∧ Generated.Subproc.stopTakesTheSameMutex = true)) := by
+  first
+  | exact .holds (by decide)
+  | exact .fails (by decide)
+
 theorem C05_group_facts_in_source :
     Generated.Subproc.ok = true ∧ Generated.Subproc.ownProcessGroup = true ∧
     Generated.Subproc.killGroupIsSigkillToMinusPid = true ∧ Generated.Subproc.stopDelayMs = 10 := by decide
